@@ -257,3 +257,293 @@ theorem default_virtual_autogen (b : Bucket) (h : (bucketToMapping b).Default = 
   · rfl
 
 end Influx.DBRP
+
+namespace Influx.DBRP
+open Influx.Spec.C43
+
+/-! ### the listing of an organization -/
+
+def orgFilter (org : Nat) : Filter := { OrgID := some org }
+
+theorem filterFunc_org (m : Mapping) (org : Nat) : filterFunc m (orgFilter org) = decide (m.OrganizationID = org) := by
+  simp only [filterFunc, orgFilter, Option.isNone_none, Bool.true_or, Bool.true_and, Option.isNone_some, Bool.false_or,
+    Bool.and_true]
+  by_cases h : m.OrganizationID = org
+  · simp [h]
+  · have h' : ¬org = m.OrganizationID := fun e => h e.symm
+    simp [h, h']
+
+/-- the stored part of the listing -/
+def physOrg (s : St) (org : Nat) : List Mapping := (walkOrg s org).map (dflt s)
+
+theorem findMany_listing {s : St} (h : Inv s) (org : Nat) :
+    findMany s (orgFilter org) = .ok (mergeVirtual (orgFilter org) (physOrg s org) (findBuckets s (orgFilter org))) := by
+  unfold findMany findPhysical
+  simp only [orgFilter]
+  rw [addAll_ok h _ _ _ (fun v hv => ((walkOrg_mem h).mp hv).1)]
+  simp only [List.nil_append]
+  have : ((walkOrg s org).map (dflt s)).filter (filterFunc · (orgFilter org)) = physOrg s org := by
+    unfold physOrg
+    apply List.filter_eq_self.mpr
+    intro x hx
+    simp only [List.mem_map] at hx
+    obtain ⟨v, hv, rfl⟩ := hx
+    rw [filterFunc_org]
+    simp only [decide_eq_true_eq]
+    exact ((walkOrg_mem h).mp hv).2
+  simp only [orgFilter] at this
+  rw [this]
+
+theorem physOrg_mem {s : St} (h : Inv s) {org : Nat} {x : Mapping} (hx : x ∈ physOrg s org) :
+    ∃ v ∈ s.recs, v.OrganizationID = org ∧ x = dflt s v := by
+  simp only [physOrg, List.mem_map] at hx
+  obtain ⟨v, hv, rfl⟩ := hx
+  exact ⟨v, ((walkOrg_mem h).mp hv).1, ((walkOrg_mem h).mp hv).2, rfl⟩
+
+/-- **the listing of an organization satisfies the statement** -/
+theorem listing_ok {s : St} (h : Inv s) (org : Nat) :
+    listingOK org (mergeVirtual (orgFilter org) (physOrg s org) (findBuckets s (orgFilter org))) = true := by
+  have hwm : ∀ v ∈ walkOrg s org, v ∈ s.recs ∧ v.OrganizationID = org := fun v hv => (walkOrg_mem h).mp hv
+  have hfrom := mergeVirtual_from (orgFilter org) (findBuckets s (orgFilter org)) (physOrg s org)
+  simp only [listingOK, Bool.and_eq_true]
+  refine ⟨⟨?_, ?_⟩, ?_⟩
+  · simp only [List.all_eq_true, beq_iff_eq]
+    intro x hx
+    rcases hfrom x hx with h1 | ⟨_, hf, _⟩
+    · obtain ⟨v, _, hvo, rfl⟩ := physOrg_mem h h1
+      exact hvo
+    · rw [filterFunc_org] at hf; simpa using hf
+  · exact mergeVirtual_pairsUnique _ _ _ (pairsUnique_of_distinct h org _ hwm (walkOrg_nodup h org))
+  · simp only [defaultsOK, List.all_eq_true]
+    intro db _
+    have hc := cnt_physical h org db (walkOrg s org) hwm (walkOrg_nodup h org)
+    have hm := mergeVirtual_cnt (orgFilter org) db (findBuckets s (orgFilter org)) (physOrg s org) hc.1
+    show (if (List.any _ fun (m : Mapping) => m.Database == db && !m.Virtual) = true then
+      cnt (mergeVirtual (orgFilter org) (physOrg s org) (findBuckets s (orgFilter org))) db == 1
+      else decide (cnt (mergeVirtual (orgFilter org) (physOrg s org) (findBuckets s (orgFilter org))) db ≤ 1)) = true
+    split
+    · next hany =>
+      simp only [List.any_eq_true, Bool.and_eq_true, beq_iff_eq, Bool.not_eq_true'] at hany
+      obtain ⟨x, hx, hxdb, hxv⟩ := hany
+      rcases hfrom x hx with h1 | ⟨hv, _⟩
+      · obtain ⟨v, hv, hvo, rfl⟩ := physOrg_mem h h1
+        -- the database has a stored mapping, hence a default entry naming a stored mapping of it
+        have hex := h.defEx v hv
+        cases hd : getDefault s v.OrganizationID v.Database with
+        | none => simp [hd] at hex
+        | some d =>
+          obtain ⟨y, hy, e1, e2, e3⟩ := h.defSome _ _ _ hd
+          have hyw : y ∈ walkOrg s org := (walkOrg_mem h).mpr ⟨hy, by rw [e2, hvo]⟩
+          have hvdb : v.Database = db := hxdb
+          have := hc.2 y hyw (by rw [e3, hvdb]) (by rw [← hvo, ← hvdb, hd, e1])
+          have hp : cnt (physOrg s org) db = 1 := this
+          simp only [beq_iff_eq]
+          omega
+      · rw [hv] at hxv; cases hxv
+    · simpa using hm.2
+
+end Influx.DBRP
+
+namespace Influx.DBRP
+open Influx.Spec.C43
+
+/-! ### small list facts -/
+
+theorem length_le_one_of_eq {l : List Mapping} (hp : l.Pairwise (fun a b => a.ID ≠ b.ID))
+    (he : ∀ x ∈ l, ∀ y ∈ l, x.ID = y.ID) : l.length ≤ 1 := by
+  cases l with
+  | nil => simp
+  | cons a t =>
+    cases t with
+    | nil => simp
+    | cons b t' =>
+      rw [List.pairwise_cons] at hp
+      exact absurd (he a (by simp) b (by simp)) (hp.1 b (by simp))
+
+theorem eq_of_length_le_one {l l' : List Mapping} (h1 : l.length ≤ 1) (h2 : l'.length ≤ 1)
+    (hm : ∀ x, x ∈ l ↔ x ∈ l') : l = l' := by
+  cases l with
+  | nil =>
+    cases l' with
+    | nil => rfl
+    | cons b t => have := (hm b).mpr (by simp); simp at this
+  | cons a t =>
+    cases t with
+    | cons _ _ => simp at h1
+    | nil =>
+      cases l' with
+      | nil => have := (hm a).mp (by simp); simp at this
+      | cons b t' =>
+        cases t' with
+        | cons _ _ => simp at h2
+        | nil =>
+          have := (hm a).mp (by simp)
+          simp only [List.mem_singleton] at this
+          rw [this]
+
+theorem pairsUnique_of_length_le_one {l : List Mapping} (h : l.length ≤ 1) : pairsUnique l = true := by
+  cases l with
+  | nil => rfl
+  | cons a t =>
+    cases t with
+    | nil => simp [pairsUnique]
+    | cons _ _ => simp at h
+
+/-- names of one pair occur at most once in a list with unique pairs -/
+theorem length_le_one_of_pairsUnique {l : List Mapping} (hu : pairsUnique l = true) (db rp : String)
+    (ht : ∀ x ∈ l, x.Database = db ∧ x.RetentionPolicy = rp) : l.length ≤ 1 := by
+  cases l with
+  | nil => simp
+  | cons a t =>
+    cases t with
+    | nil => simp
+    | cons b t' =>
+      simp only [pairsUnique, Bool.and_eq_true, List.all_eq_true] at hu
+      have := hu.1 b (by simp)
+      have ha := ht a (by simp)
+      have hb := ht b (by simp)
+      simp [ha.1, ha.2, hb.1, hb.2] at this
+
+theorem eq_singleton_of_mem {l : List Mapping} (h : l.length = 1) {x : Mapping} (hx : x ∈ l) : l = [x] := by
+  cases l with
+  | nil => simp at h
+  | cons a t =>
+    cases t with
+    | nil => simp only [List.mem_singleton] at hx; rw [hx]
+    | cons _ _ => simp at h
+
+end Influx.DBRP
+
+namespace Influx.DBRP
+open Influx.Spec.C43
+
+/-! ### lookup by (org, db, rp) -/
+
+def resFilter (org : Nat) (db rp : String) : Filter :=
+  { OrgID := some org, Database := some db, RetentionPolicy := some rp }
+
+/-- the pair test of the statement -/
+def isPair (db rp : String) (m : Mapping) : Bool := m.Database == db && m.RetentionPolicy == rp
+
+theorem filterFunc_res (m : Mapping) (org : Nat) (db rp : String) :
+    filterFunc m (resFilter org db rp) = (decide (m.OrganizationID = org) && isPair db rp m) := by
+  simp only [filterFunc, resFilter, isPair, Option.isNone_none, Bool.true_or, Bool.true_and, Option.isNone_some,
+    Bool.false_or, Bool.and_true]
+  by_cases h1 : m.OrganizationID = org <;> by_cases h2 : m.Database = db <;> by_cases h3 : m.RetentionPolicy = rp <;>
+    simp [h1, h2, h3] <;> (intro h; first | exact h1 h.symm | exact h2 h.symm | exact h3 h.symm)
+
+theorem findBuckets_res (s : St) (org : Nat) (db rp : String) :
+    findBuckets s (resFilter org db rp) = findBuckets s (orgFilter org) := rfl
+
+theorem findBuckets_org {s : St} {org : Nat} {b : Bucket} (h : b ∈ findBuckets s (orgFilter org)) : b.OrgID = org := by
+  simp only [findBuckets, orgFilter, List.mem_filter, Option.isNone_none, Bool.true_or, Option.isNone_some, Bool.false_or,
+    Bool.true_and, beq_iff_eq, Option.some.injEq] at h
+  exact h.2.symm
+
+/-- relation between the accumulators of the listing merge and of the lookup merge -/
+def Rel (db rp : String) (aL aR : List Mapping) : Prop :=
+  ids (aL.filter (isPair db rp)) = ids aR ∧ ∀ y ∈ aR, isPair db rp y = true
+
+theorem merge_sim (org : Nat) (db rp : String) : ∀ (bs : List Bucket) (aL aR : List Mapping),
+    (∀ b ∈ bs, b.OrgID = org) → Rel db rp aL aR →
+    Rel db rp (mergeVirtual (orgFilter org) aL bs) (mergeVirtual (resFilter org db rp) aR bs) := by
+  intro bs
+  induction bs with
+  | nil => intro aL aR _ h; simpa [mergeVirtual] using h
+  | cons b bs ih =>
+    intro aL aR hb hrel
+    have hbs : ∀ b' ∈ bs, b'.OrgID = org := fun b' hb' => hb b' (by simp [hb'])
+    have hbo : (bucketToMapping b).OrganizationID = org := hb b (by simp)
+    have hv := bucketToMapping_virtual b
+    simp only [mergeVirtual]
+    by_cases hT : isPair db rp (bucketToMapping b) = true
+    · -- the bucket names the pair looked up: both merges skip it, or both append it
+      have hTd : (bucketToMapping b).Database = db ∧ (bucketToMapping b).RetentionPolicy = rp := by
+        simpa [isPair] using hT
+      have hiff : mergeOne (bucketToMapping b) aL = none ↔ mergeOne (bucketToMapping b) aR = none := by
+        rw [mergeOne_none_iff hv, mergeOne_none_iff hv, hTd.1, hTd.2]
+        constructor
+        · rintro ⟨m, hm, h1, h2⟩
+          have hmf : m ∈ aL.filter (isPair db rp) := List.mem_filter.mpr ⟨hm, by simp [isPair, h1, h2]⟩
+          have hne : ids aR ≠ [] := by
+            rw [← hrel.1]; intro hc
+            simp only [ids, List.map_eq_nil_iff] at hc
+            rw [hc] at hmf; simp at hmf
+          cases haR : aR with
+          | nil => rw [haR] at hne; simp [ids] at hne
+          | cons y t =>
+            have := hrel.2 y (by rw [haR]; simp)
+            simp only [isPair, Bool.and_eq_true, beq_iff_eq] at this
+            exact ⟨y, by simp, this.1, this.2⟩
+        · rintro ⟨m, hm, _, _⟩
+          have hne : ids (aL.filter (isPair db rp)) ≠ [] := by
+            rw [hrel.1]; intro hc
+            simp only [ids, List.map_eq_nil_iff] at hc
+            rw [hc] at hm; simp at hm
+          cases haL : aL.filter (isPair db rp) with
+          | nil => rw [haL] at hne; simp [ids] at hne
+          | cons y t =>
+            have hy : y ∈ aL.filter (isPair db rp) := by rw [haL]; simp
+            have := List.mem_filter.mp hy
+            simp only [isPair, Bool.and_eq_true, beq_iff_eq] at this
+            exact ⟨y, this.1, this.2.1, this.2.2⟩
+      cases hmL : mergeOne (bucketToMapping b) aL with
+      | none =>
+        rw [hiff.mp hmL]
+        exact ih aL aR hbs hrel
+      | some nmL =>
+        cases hmR : mergeOne (bucketToMapping b) aR with
+        | none => rw [hiff.mpr hmR] at hmL; cases hmL
+        | some nmR =>
+          have hsL := mergeOne_some hmL
+          have hsR := mergeOne_some hmR
+          have hfL : filterFunc nmL (orgFilter org) = true := by
+            rw [filterFunc_org, hsL.2.2.2.1, hbo]; simp
+          have hTR : isPair db rp nmR = true := by simp [isPair, hsR.1, hsR.2.1, hTd.1, hTd.2]
+          have hTL : isPair db rp nmL = true := by simp [isPair, hsL.1, hsL.2.1, hTd.1, hTd.2]
+          have hfR : filterFunc nmR (resFilter org db rp) = true := by
+            rw [filterFunc_res, hsR.2.2.2.1, hbo, hTR]; simp
+          simp only [hfL, hfR, ↓reduceIte]
+          apply ih _ _ hbs
+          refine ⟨?_, ?_⟩
+          · simp only [List.filter_append, List.filter_cons, hTL, ↓reduceIte, List.filter_nil, ids, List.map_append,
+              List.map_cons, List.map_nil]
+            have := hrel.1
+            simp only [ids] at this
+            rw [this, hsL.2.2.1, hsR.2.2.1]
+          · intro y hy
+            rcases List.mem_append.mp hy with hy | hy
+            · exact hrel.2 y hy
+            · simp only [List.mem_singleton] at hy; rw [hy]; exact hTR
+    · -- another pair: the lookup never appends it, the listing's filtered view is unchanged
+      have hTf : isPair db rp (bucketToMapping b) = false := by simpa using hT
+      have hright : (match mergeOne (bucketToMapping b) aR with
+          | none => mergeVirtual (resFilter org db rp) aR bs
+          | some nm => mergeVirtual (resFilter org db rp) (if filterFunc nm (resFilter org db rp) = true then aR ++ [nm] else aR) bs)
+          = mergeVirtual (resFilter org db rp) aR bs := by
+        cases hmR : mergeOne (bucketToMapping b) aR with
+        | none => rfl
+        | some nmR =>
+          have hsR := mergeOne_some hmR
+          have : filterFunc nmR (resFilter org db rp) = false := by
+            rw [filterFunc_res]
+            have : isPair db rp nmR = false := by
+              simp only [isPair, hsR.1, hsR.2.1]; exact hTf
+            simp [this]
+          simp [this]
+      rw [hright]
+      cases hmL : mergeOne (bucketToMapping b) aL with
+      | none => exact ih aL aR hbs hrel
+      | some nmL =>
+        have hsL := mergeOne_some hmL
+        have hTL : isPair db rp nmL = false := by simp only [isPair, hsL.1, hsL.2.1]; exact hTf
+        simp only
+        split
+        · apply ih _ _ hbs
+          refine ⟨?_, hrel.2⟩
+          simp only [List.filter_append, List.filter_cons, hTL, Bool.false_eq_true, ↓reduceIte, List.filter_nil,
+            List.append_nil]
+          exact hrel.1
+        · exact ih aL aR hbs hrel
+
+end Influx.DBRP
